@@ -1,1 +1,85 @@
-fn main(){}
+//! Direct rig (R2): the public Rust API the properties name as their observation point is run
+//! under dense boundary sweeps; exact-rational oracles decide.  Same CLI and result JSON as rig1.
+#![allow(dead_code, unused_imports, unused_variables)]
+mod c09;
+mod c15;
+mod c18;
+mod c20;
+
+use serde_json::json;
+use std::time::{Duration, Instant};
+pub use vcommon::{num, refm, report, state};
+
+pub struct Args {
+    pub prop: String,
+    pub tier: String,
+    pub seed: u64,
+    pub shard: u64,
+    pub nshards: u64,
+    pub out: String,
+    pub budget: Duration,
+}
+fn parse_args() -> Args {
+    let a: Vec<String> = std::env::args().collect();
+    let mut r = Args { prop: a.get(1).cloned().unwrap_or_default(), tier: "quick".into(), seed: 1, shard: 0, nshards: 1, out: "/dev/stderr".into(), budget: Duration::from_secs(30) };
+    let mut i = 2;
+    while i < a.len() {
+        let v = a.get(i + 1).cloned().unwrap_or_default();
+        match a[i].as_str() {
+            "--tier" => r.tier = v,
+            "--seed" => r.seed = v.parse().unwrap_or(1),
+            "--shard" => r.shard = v.parse().unwrap_or(0),
+            "--nshards" => r.nshards = v.parse().unwrap_or(1),
+            "--out" => r.out = v,
+            "--budget-s" => r.budget = Duration::from_secs(v.parse().unwrap_or(30)),
+            _ => {}
+        }
+        i += 2;
+    }
+    r
+}
+pub fn subseed(a: &Args, salt: u64) -> u64 {
+    report::h64(&(a.seed, a.prop.as_str(), a.shard, salt))
+}
+
+/// Clock for code that calls `Clock::get()` (Solend staleness) and silence for `msg!`.
+pub struct Stubs;
+pub static NOW_SLOT: std::sync::atomic::AtomicU64 = std::sync::atomic::AtomicU64::new(0);
+pub static NOW_TS: std::sync::atomic::AtomicI64 = std::sync::atomic::AtomicI64::new(0);
+impl solana_sdk::program_stubs::SyscallStubs for Stubs {
+    fn sol_log(&self, _m: &str) {}
+    fn sol_get_clock_sysvar(&self, var_addr: *mut u8) -> u64 {
+        let c = solana_sdk::clock::Clock { slot: NOW_SLOT.load(std::sync::atomic::Ordering::Relaxed), unix_timestamp: NOW_TS.load(std::sync::atomic::Ordering::Relaxed), ..Default::default() };
+        unsafe { *(var_addr as *mut solana_sdk::clock::Clock) = c };
+        0
+    }
+}
+
+fn main() {
+    std::panic::set_hook(Box::new(|i| {
+        let loc = i.location().map(|l| l.file().to_string()).unwrap_or_default();
+        if std::env::var("VERIF_ALL_PANICS").is_ok() || loc.contains("/verif/") || loc.starts_with("rig") || loc.starts_with("vcommon") {
+            eprintln!("HARNESS PANIC: {}", i);
+        }
+    }));
+    solana_sdk::program_stubs::set_syscall_stubs(Box::new(Stubs));
+    let a = parse_args();
+    let t0 = Instant::now();
+    let mut r = report::Report::new(&a.prop);
+    match a.prop.as_str() {
+        "C15" => c15::run(&a, &mut r),
+        "C18" => c18::run(&a, &mut r),
+        "C20" => c20::run(&a, &mut r),
+        "C09" => c09::run(&a, &mut r),
+        p => {
+            eprintln!("unknown property {}", p);
+            std::process::exit(3);
+        }
+    }
+    let mut j = r.to_json();
+    j["wall_s"] = json!(t0.elapsed().as_secs_f64());
+    j["seed"] = json!(a.seed);
+    j["shard"] = json!(a.shard);
+    j["tier"] = json!(a.tier);
+    std::fs::write(&a.out, serde_json::to_string(&j).unwrap()).expect("write result");
+}
